@@ -20,7 +20,8 @@ RULE = ('(A) handshake: ALL device reply sequences over {CNXN ok, CNXN with malf
         'remote close with buffered data, read, write, illegal mid-session packet (CNXN/AUTH/SYNC/OPEN), with STREAM_ID_LIMIT set '
         'to 8 so that id wrap-around, reuse after close and exhaustion are reached; oracle = reference model of open ids / '
         'buffers / expected CLSE packets.  Non-trivial = >=1 AUTH round or noise before CNXN; history with >=2 opens and a '
-        'close, a wrap-around, or a remote close with buffered data; distinct by canonical case.')
+        'close, a wrap-around, or a remote close with buffered data; distinct by canonical case.  After a close from either side '
+        'every byte the host had acknowledged is returned by read() before the stream reports closed.')
 ASSUMPTIONS = ['The transport is a scripted fake; a silent device is modelled as an immediate libusb timeout error.',
                'Any error type from the usb_exceptions hierarchy of the right class (auth / protocol / timeout) is accepted; other exception types are violations.']
 
